@@ -20,7 +20,8 @@ func init() {
 			"R3 each file once, in fixed order — every argument is walked (the loop over the patterns parameter covers all of them, none is filtered away), results are de-duplicated by absolute path and sorted by it, and Run iterates once over exactly that slice; " +
 			"R4 argument normalisation — the root walked is the argument with a trailing \"...\" trimmed, joined to the working directory when relative and cleaned when absolute. " +
 			"NOT decided: operating-system semantics of Walk and of path cleaning." +
-			" R6 the compiled patch does not remember earlier files.",
+			" R6 the compiled patch does not remember earlier files." +
+			" R7 os.Args[1:] -> Run -> ParseArgs -> options.Args.Patterns -> findFiles, each hop the value as it is, and no function assigns the Patterns field.",
 		Trusted:     append([]string{"filepath.Walk and filepath.WalkDir use Lstat and do not follow symbolic links"}, commonTrusted...),
 		Assumptions: commonAssumptions,
 	})
@@ -38,6 +39,7 @@ func runC15(r *an.Run) {
 	// a discovered file is handed to the patches as they were compiled: nothing that happens to one file
 	// (a change that failed on it) is remembered in the compiled patch and makes it skip the files after it
 	compiledProgramReadOnly(r, "R6-the-compiled-patch-does-not-remember-earlier-files")
+	argumentsTakenAsGiven(r, "R7-the-arguments-reach-file-discovery-as-given")
 }
 
 func walkCallback(r *an.Run) (f, clo *ssa.Function, walk ssa.CallInstruction) {
